@@ -110,6 +110,16 @@ func genConcPlan(prop string, seed uint64, tier string) *Plan {
 	}
 	kinds := []string{"put", "put", "get", "get", "del", "pappend", "pappend", "premove", "plist", "pcontains", "acquire", "release"}
 	abandon := r.Chance(0.35)
+	if prop == "C21" {
+		// concurrent callers (rejected duplicate appends among accepted writes), then a clean stop and reopen
+		p.Backend = pick(r, "aof", "aof", "aof", "sqlite")
+		if p.Backend == "sqlite" {
+			n = 4 + r.Intn(5)
+			p.Tasks = 2 + r.Intn(2)
+		}
+		kinds = []string{"put", "put", "del", "pappend", "pappend", "pappend", "premove", "get"}
+		abandon = false
+	}
 	switch {
 	case prop == "C19" || r.Chance(0.25):
 		// races for one lease
@@ -290,6 +300,27 @@ func runConc(t *testing.T, prop string, seed uint64, tier string, replay *hcommo
 			}
 			wg.Wait()
 			simrt.YieldAlways("h:done")
+			if prop == "C21" && p.Backend != "memory" {
+				// C21: whatever the concurrent callers did, a clean stop and reopen reproduces the data
+				keys := append(append([]string{}, p.Alphabet...), "zz")
+				before, err := snapshot(b.KV, keys)
+				if err != nil {
+					res.Violate(prop, p.Backend+"/snapshot-error", "snapshot before the clean stop failed: %v", err)
+					return
+				}
+				b.Close()
+				nb, err := Open(p.Backend, h, b)
+				if err != nil {
+					res.Violate(prop, p.Backend+"/reopen-failed", "reopening the store after concurrent use and a clean stop failed: %v", err)
+					return
+				}
+				b = nb
+				after, err := snapshot(nb.KV, keys)
+				if err != nil || before != after {
+					res.Violate(prop, p.Backend+"/data-changed", "after concurrent use, a clean stop and reopen the data differs:\n before %s\n after  %s (%v)", before, after, err)
+				}
+				simrt.Probe("clean-restart-after-concurrent-use")
+			}
 		})
 	})
 	hcommon.Fill(&res, out)
